@@ -574,8 +574,8 @@ def run_check(tier):
     shim_path(); refcli_path()
     stats = {"runs": 0, "nontrivial": set(), "faults": 0}
     state = {"fail": None, "after": 0}
-    sizes = st.one_of(st.sampled_from([0, 1, 15, 16, 17, 31, 33, 100, 255, 600] + list(range(BUFSIZ - 17, BUFSIZ + 18, 2)) + [2 * BUFSIZ - 1, 2 * BUFSIZ, 2 * BUFSIZ + 1, BUFSIZ - 16, 3 * BUFSIZ - 16]),
-                      st.integers(0, 600), st.integers(0, 65536))
+    sizes = st.one_of(st.sampled_from([0, 1, 15, 16, 17, 31, 33, 100, 255, 600] + list(range(BUFSIZ - 17, BUFSIZ + 18, 2)) + [2 * BUFSIZ - 1, 2 * BUFSIZ, 2 * BUFSIZ + 1, BUFSIZ - 16, 3 * BUFSIZ - 16, 4 * BUFSIZ - 16, 8 * BUFSIZ - 17, 8 * BUFSIZ - 16, 8 * BUFSIZ, 8 * BUFSIZ + 1, 100003]),
+                      st.integers(0, 600), st.integers(0, 65536), st.integers(65536, 150000))
     pwchars = st.characters(min_codepoint=33, max_codepoint=126)
     case = st.fixed_dictionaries({"size": sizes, "cseed": st.integers(0, 1 << 20), "password": st.text(pwchars, min_size=1, max_size=200),
                                   "pwmode": st.sampled_from(["p", "k", "K"]), "naming": st.sampled_from(["o", "suffix"]),
@@ -616,10 +616,10 @@ def run_check(tier):
     # asconsum
     state2 = {"fail": None, "after": 0}
     nm = st.text(st.characters(min_codepoint=97, max_codepoint=122), min_size=1, max_size=20).map(lambda s: "f_" + s)
-    sumcase = st.fixed_dictionaries({"files": st.lists(st.tuples(st.one_of(st.sampled_from([0, 1, 7, 8, 9, BUFSIZ - 1, BUFSIZ, BUFSIZ + 1, 2 * BUFSIZ]), st.integers(0, 20000)), st.integers(0, 1 << 20)), min_size=1, max_size=4),
+    sumcase = st.fixed_dictionaries({"files": st.lists(st.tuples(st.one_of(st.sampled_from([0, 1, 7, 8, 9, BUFSIZ - 1, BUFSIZ, BUFSIZ + 1, 2 * BUFSIZ, 3 * BUFSIZ + 1, 4 * BUFSIZ, 7 * BUFSIZ - 1, 8 * BUFSIZ - 1, 8 * BUFSIZ, 8 * BUFSIZ + 1, 9 * BUFSIZ, 16 * BUFSIZ + 5, 100000, 200001]), st.integers(0, 20000), st.integers(60000, 140000)), st.integers(0, 1 << 20)), min_size=1, max_size=4),
                                      "names": st.lists(nm, min_size=4, max_size=4, unique=True), "alg": st.sampled_from(["h", "a", "x", "y", ""]),
                                      "mod": st.fixed_dictionaries({"kind": st.sampled_from(["file-bit", "file-truncate", "digest-digit", "digest-short", "digest-long", "file-missing", "other-alg"]),
-                                                                   "victim": st.integers(0, 3), "pos": st.integers(0, 1 << 16)})})
+                                                                   "victim": st.integers(0, 3), "pos": st.integers(0, 1 << 20)})})
 
     @hseed(seed() + 1)
     @settings(max_examples=60 if tier == "quick" else 1500, database=None, deadline=None, suppress_health_check=list(HealthCheck), report_multiple_bugs=False)
